@@ -787,3 +787,62 @@ def dep(ctx, prop, tag):
         parts = rule.split(".", 1)
         return "%s.d%s.%s" % (prop, parts[0], parts[1] if len(parts) > 1 else "")
     return Renamed(ctx, rn)
+
+
+
+# --------------------------------------------------------------------------- one iteration of an iterator's main loop
+
+def iteration_node(fv):
+    """Node whose paths are the paths of ONE iteration of next()'s main loop, including the exhaustion
+    decision.  `loop { if done { return None } .. }` -> the loop body;  `while !done { .. } tail` ->
+    a synthetic `if !done { body } else { return tail }`.  Returns (node, loop_node) or (None, None)."""
+    loop = next((n for n in fv.nodes if n.get("k") in ("loop", "while")), None)
+    if loop is None:
+        return None, None
+    if loop.get("k") == "loop":
+        return loop["body"], loop
+    # statements after the while in the enclosing block form the exhaustion exit
+    blk = fv.parent.get(id(loop))
+    holder = loop
+    while blk is not None and blk.get("k") == "semi":
+        holder = blk
+        blk = fv.parent.get(id(blk))
+    tail_stmts, tail_expr = [], None
+    if blk is not None and blk.get("k") == "block":
+        seq = blk.get("stmts", [])
+        if holder in seq:
+            i = seq.index(holder)
+            tail_stmts = seq[i + 1:]
+            tail_expr = blk.get("expr")
+        elif blk.get("expr") is holder:
+            tail_expr = None
+    if tail_expr is not None and tail_expr.get("k") != "ret":
+        tail_expr = {"k": "ret", "e": tail_expr, "sp": tail_expr.get("sp", loop.get("sp")), "ty": "!"}
+    synth = {"k": "if", "cond": loop["cond"], "then": loop["body"], "sp": loop.get("sp"),
+             "else": {"k": "block", "stmts": list(tail_stmts), "expr": tail_expr, "sp": loop.get("sp")}}
+    return synth, loop
+
+
+def exhaustion_verdict(t, pol, pos_t=None, seq_t=None):
+    """For a condition comparing pos with seq.len(): True if (t, pol) means 'input exhausted',
+    False if it means 'a byte is available', None if t is not such a test."""
+    pos_t = pos_t or SF("pos")
+    seq_t = seq_t or SF("seq")
+    if t[0] != "bin" or t[1] not in ("==", "!=", "<", "<="):
+        return None
+    a, b = t[2], t[3]
+    if a == pos_t and is_len_of(b, seq_t):
+        side = "pos_len"
+    elif b == pos_t and is_len_of(a, seq_t):
+        side = "len_pos"
+    else:
+        return None
+    if t[1] == "==":
+        return pol
+    if t[1] == "!=":
+        return not pol
+    if t[1] == "<":      # pos < len  -> available ; len < pos -> exhausted (never)
+        return (not pol) if side == "pos_len" else pol
+    if t[1] == "<=":     # len <= pos -> exhausted ; pos <= len -> nothing known
+        return pol if side == "len_pos" else None
+    return None
